@@ -295,3 +295,20 @@ Section Chunk.
     rewrite R1 in Ev, Rd. split; [exact Ev|exact Rd].
   Qed.
 End Chunk.
+
+(** The section hypotheses are satisfiable (the theorems are not vacuous): the identity codec and a toy page
+    header of four cells read back by a toy parser. *)
+Example chunk_hypotheses_satisfiable :
+  let compress := fun b : list N => b in
+  let decompress := fun (s : list N) (_ : N) => Ok s in
+  let header := fun h : page_hdr => [h_uncompressed h; h_compressed h; h_crc h; h_num_values h] in
+  let parse_header := fun bs : list N =>
+    match bs with
+    | a :: b :: c :: d :: _ => Ok (mkhc E_CARQUET_PAGE_DATA a b (Some c) d E_CARQUET_ENCODING_PLAIN E_CARQUET_ENCODING_RLE, 4)
+    | _ => Err E_CARQUET_ERROR_INVALID_PAGE
+    end in
+  (forall b, compress b = b) /\
+  (forall b, is_bytes b -> len b < 2 ^ 31 -> decompress (compress b) (len b) = Ok b) /\
+  (forall h rest, parse_header (header h ++ rest) = Ok (core_of h, len (header h))) /\
+  (forall h, len (header h) <= 256) /\ (forall h, 0 < len (header h)).
+Proof. cbv zeta. repeat split; intros; try reflexivity; cbn; lia. Qed.
